@@ -281,6 +281,16 @@ Check C02_pool_prefix_bytes :
              end).
 Print Assumptions C02_pool_prefix_bytes.
 
+(* There is no other byte-range slicing expression (x[a..b], split_at, get_unchecked,
+   from_utf8_unchecked) in the library code of the five crates: the translator's scan of the
+   current source finds exactly the sites transcribed above (lex.rs 7, vcs.rs 5, changes.rs 1).
+   Every other reader works through chars(), lines(), split*, trim*, strip_prefix/suffix, find +
+   the sites above: std functions that return character boundaries. *)
+Theorem C02_slice_sites_complete : slice_sites_complete = true.
+Proof. exact slice_sites_complete_ok. Qed.
+Check C02_slice_sites_complete : slice_sites_complete = true.
+Print Assumptions C02_slice_sites_complete.
+
 (* Non-vacuity: 2-, 3- and 4-byte characters (U+00E9, U+20AC, U+1F600) in every position class —
    column 0, right after a key, in a value, after an indent (space and tab), right after the
    colon, in a comment, at end of input: 31 characters, 64 bytes, 20 tokens; the pre-fix lexer
